@@ -104,6 +104,7 @@ class Interp:
         self.terminal = False
         self.co_depth = 0
         self.shared_exc = {}
+        self.owed_out = {}          # inst -> (listeners, args) postponed
 
         # ---- handles
         class SimHandle(d.WorldHandle):
@@ -423,11 +424,22 @@ class Interp:
         frm = self.cur if fromkind == 'default' else inst
         if frm is None or frm in self.muted:
             return
+        if fromkind == 'muted_current' and inst != self.cur:
+            return
         from_world = None if fromkind == 'default' else self.world_of[inst]
         y, fresh = self.predict(frm, T, cc, cn, direct=False)
         rec = {'via': 'switch', 'from': frm, 'T': T, 'cc': cc, 'cn': cn,
                'y': y, 'fresh': fresh, 'frame': self.frame,
                'held': list(self.held.get(y, []))}
+        if fromkind == 'muted_current':
+            # the program has switched the dispatching of the world it leaves
+            # off itself: on_switch_out is owed until that world is entered
+            # again (C04), not dropped
+            if y == frm or cc or frm in self.owed_out:
+                return
+            self.world_of[frm].dispatch_enabled = False
+            rec['out_postponed'] = True
+            self.probes['left_world_was_disabled_by_the_program'] += 1
         self.ev.append(('req_begin', rec))
         self.faults['switch'] += 1
         try:
@@ -757,6 +769,18 @@ class Interp:
             self.fail(('C13', 'C15'), 'callback_order', f'entering {y}: '
                       f'on_world_load before on_add: {names}')
         self.fresh.discard(y)
+        owed = self.owed_out.pop(y, None) if rec is not None else None
+        if owed is not None and not cut and y not in self.unsure:
+            got_out = sorted(e[2] for e in window if e[0] == 'cb'
+                             and e[1] == y and e[3] == 'on_switch_out')
+            bad = [e for e in window if e[0] == 'cb' and e[1] == y
+                   and e[3] == 'on_switch_out' and e[4] != owed[1]]
+            if got_out != owed[0] or bad:
+                self.fail('C13', 'out_count', f'entering {y} again: the '
+                          f'on_switch_out postponed when it was left (its '
+                          f'dispatching was off) reached {got_out}, expected '
+                          f'{owed[0]} with {owed[1]}')
+            self.probes['postponed_on_switch_out_delivered'] += 1
         ins = [i for i, n in enumerate(names) if n[0] == 'on_switch_in']
         # events still queued in y from an entry that was cut short
         carry = self.carry.pop(y, None) if rec is not None else None
@@ -851,6 +875,9 @@ class Interp:
                 between = [x for x in ev[i + 1:j] if x[0] == 'cb']
                 frm = rec['from']
                 want = sorted(self.listeners(frm, 'on_switch_out'))
+                if rec.get('out_postponed'):
+                    self.owed_out[frm] = (want, (frm, rec['y']))
+                    want = []
                 got = sorted(x[2] for x in between
                              if x[3] == 'on_switch_out' and x[1] == frm)
                 # (on_switch_in may already reach an enabled target here:
@@ -1028,6 +1055,9 @@ def gen_script(prop, rng, cfg, key, state):
                                   ['quit_loop', 'cur'], ['boom'], ['crash'],
                                   ['quit_loop', rng.randrange(nw)]])]
     if r < .8:
+        if prop == 'C13' and rng.random() < .12 and not special:
+            return ops + [['switch', rng.randrange(nw), False,
+                           rng.random() < .3, 'muted_current']]
         return ops + [['switch', rng.randrange(nw), rng.random() < .35,
                        rng.random() < .35,
                        rng.choice(['default', 'default', 'current'])]]
@@ -1187,7 +1217,9 @@ PROBES = {
             'entry_cut_by_held_event_callback', 'carried_events_released',
             'entry_cut_by_chained_switch', 'non_default_loop',
             'probe_on_discarded_world',
-            'same_SwitchWorld_instance_raised_again'],
+            'same_SwitchWorld_instance_raised_again',
+            'left_world_was_disabled_by_the_program',
+            'postponed_on_switch_out_delivered'],
     'C14': ['quit_while_next_world_loads', 'stop_iteration_escapes_a_frame',
             'plain_loop_switch_call',
             'quit_from.proc_first', 'quit_from.proc', 'quit_from.on_update',
